@@ -81,9 +81,13 @@ pub fn run(ctx: &Ctx) -> Collector {
         };
         let g = r::generator(ec);
         let mut local = 0u64;
+        let mut local_digests: Vec<u64> = Vec::new();
         let mut first_bad: Option<(Vec<u8>, String)> = None;
         let mut check = |data: &[u8], tag: &str| {
             local += 1;
+            if data.iter().any(|&b| b != 0) {
+                local_digests.push(crate::util::Fnv::new().add_u64(((dl as u64) << 8) | ec as u64).add(data).get());
+            }
             let want = r::rs_remainder_with(data, &g);
             match subject_remainder(data, &ga) {
                 Ok(got) if got == want => {}
@@ -156,7 +160,7 @@ pub fn run(ctx: &Ctx) -> Collector {
             check(&d, "running remainder returns to zero");
         }
         n_b.fetch_add(local, Ordering::Relaxed);
-        col.digest(crate::util::fnv(&[dl as u8, (dl >> 8) as u8, ec as u8]));
+        col.digests.lock().unwrap().extend(local_digests);
         if let Some((data, why)) = first_bad {
             viol(&col, (1, si as u64), "remainder", format!("block shape (data {}, ec {}): {}", dl, ec, why), json!({"kind": "division", "data_hex": crate::util::hex(&data), "ec": ec}));
         }
